@@ -1,6 +1,7 @@
 package checks
 
 import (
+	"encoding/json"
 	"errors"
 	"fmt"
 	"io"
@@ -208,6 +209,87 @@ func (t dirTransport) RoundTrip(r *http.Request) (*http.Response, error) {
 		return respond(200, fmt.Sprintf(`{"isMember":%v}`, len(ans) > 0))
 	}
 	return fail(404)
+}
+
+// cognitoTransport serves the two user-pool calls CognitoAdminService makes (ListUsersInGroup, in pages of one
+// user, and AdminListGroupsForUser) from the scripted directory, in memory, in the service's JSON 1.1 protocol.
+// Every listing ends with the pool's service account, so that a group with one member already takes two pages.
+type cognitoTransport struct {
+	d       *directory
+	pending map[string]*cognitoListing
+	n       int
+}
+
+type cognitoListing struct {
+	fill *dirFill
+	rest []string
+}
+
+const cognitoServiceAccount = "svc-account"
+
+func (t *cognitoTransport) RoundTrip(r *http.Request) (*http.Response, error) {
+	respond := func(code int, body string) (*http.Response, error) {
+		return &http.Response{StatusCode: code, Status: fmt.Sprintf("%d %s", code, http.StatusText(code)), Proto: "HTTP/1.1", ProtoMajor: 1, ProtoMinor: 1,
+			Header: http.Header{"Content-Type": {"application/x-amz-json-1.1"}}, Body: io.NopCloser(strings.NewReader(body)), ContentLength: int64(len(body)), Request: r}, nil
+	}
+	fail := func(kind string) (*http.Response, error) {
+		resp, err := respond(400, fmt.Sprintf(`{"__type":%q,"message":"scripted %s"}`, kind, kind))
+		resp.Header.Set("X-Amzn-Errortype", kind)
+		return resp, err
+	}
+	var in struct {
+		GroupName, Username string
+		NextToken           *string
+	}
+	b, _ := io.ReadAll(r.Body)
+	json.Unmarshal(b, &in)
+	page := func(l *cognitoListing) (*http.Response, error) {
+		user := l.rest[0]
+		l.rest = l.rest[1:]
+		if len(l.rest) == 0 {
+			return respond(200, fmt.Sprintf(`{"Users":[{"Username":%q}]}`, user))
+		}
+		t.n++
+		tok := fmt.Sprintf("page-token-%d", t.n)
+		t.pending[tok] = l
+		return respond(200, fmt.Sprintf(`{"Users":[{"Username":%q}],"NextToken":%q}`, user, tok))
+	}
+	switch target := r.Header.Get("X-Amz-Target"); {
+	case strings.HasSuffix(target, ".ListUsersInGroup") && in.NextToken == nil:
+		f, members, err := t.d.listRec(in.GroupName)
+		switch {
+		case err == groups.ErrGroupNotFound:
+			return fail("ResourceNotFoundException")
+		case err != nil:
+			f.Outcome = "error"
+			return fail([]string{"InternalErrorException", "TooManyRequestsException", "InvalidParameterException", "NotAuthorizedException"}[t.d.x.Choose("list-error-kind", 4)])
+		}
+		return page(&cognitoListing{fill: f, rest: append(append([]string(nil), members...), cognitoServiceAccount)})
+	case strings.HasSuffix(target, ".ListUsersInGroup"):
+		l := t.pending[*in.NextToken]
+		if l == nil {
+			return fail("InvalidParameterException")
+		}
+		delete(t.pending, *in.NextToken)
+		t.d.s.Point("in-list-next-page")
+		if t.d.failable && t.d.x.Choose("next-page-outcome", 2) == 1 {
+			// the pool no longer accepts the pagination token: the listing as a whole has failed
+			l.fill.Outcome = "error"
+			return fail("InvalidParameterException")
+		}
+		return page(l)
+	case strings.HasSuffix(target, ".AdminListGroupsForUser"):
+		ans, err := t.d.check([]string{"a", "b"}, in.Username)
+		if err != nil {
+			return fail("InternalErrorException")
+		}
+		var gs []string
+		for _, g := range ans {
+			gs = append(gs, fmt.Sprintf(`{"GroupName":%q}`, g))
+		}
+		return respond(200, `{"Groups":[`+strings.Join(gs, ",")+`]}`)
+	}
+	return fail("InvalidAction")
 }
 
 type dirCheck struct {
@@ -654,7 +736,14 @@ func googleExecute(x *explore.Exec, sc googleScenario) (*directory, []*localObs,
 			if err != nil {
 				panic(explore.HarnessError{Msg: err.Error()})
 			}
-			cp.AdminService = cognitoAdminFake{d}
+			if sc.RealAdmin {
+				// the admin service NewAmazonCognitoProvider itself built; only its user-pool client is replaced
+				if err := authp.VerifUseRealCognitoAdminService(cp, &http.Client{Transport: &cognitoTransport{d: d, pending: map[string]*cognitoListing{}}}); err != nil {
+					panic(explore.HarnessError{Msg: err.Error()})
+				}
+			} else {
+				cp.AdminService = cognitoAdminFake{d}
+			}
 			fc = groups.NewFillCache(cp.PopulateMembers, time.Minute)
 			cp.GroupsCache = fc
 			ask = func(user string, gs []string) ([]string, error) {
@@ -697,10 +786,13 @@ func googleExecute(x *explore.Exec, sc googleScenario) (*directory, []*localObs,
 		d.snapshot = func() map[string][]string {
 			if sn := fc.VerifSnapshot(); sn.OK {
 				for g, l := range sn.Cache {
+					var out []string
 					for i := range l {
-						l[i] = d.unspell(l[i])
+						if l[i] != cognitoServiceAccount {
+							out = append(out, d.unspell(l[i]))
+						}
 					}
-					sn.Cache[g] = l
+					sn.Cache[g] = out
 				}
 				return sn.Cache
 			}
@@ -838,6 +930,8 @@ func c17Run(c *fw.Ctx) {
 		{Name: "google/cached-and-uncached", Prefill: []string{"a"}, Threads: [][]localQ{{q("u1", "a", "b")}, {q("u2", "b", "a")}, {edit("a"), q("u1", "a")}}, Ticks: 1, Bound: b},
 		{Name: "google/all-uncached", Threads: [][]localQ{{q("u1", "a")}, {q("u1", "a")}, {edit("a")}}, Ticks: 1, Bound: b},
 		{Name: "google/three-groups-partly-cached", Prefill: []string{"a", "b"}, Threads: [][]localQ{{q("u2", "a", "b", "c")}, {edit("b"), q("u1", "b", "a", "c")}}, Ticks: 0, Bound: 1},
+		// the real CognitoAdminService over an in-memory user-pool API: listings come in pages, each of which may fail
+		{Name: "cognito-admin/refresh-outcomes", Cognito: true, RealAdmin: true, Prefill: []string{"a"}, Threads: [][]localQ{{upd("a"), q("u1", "a")}, {edit("a"), upd("a"), q("u2", "a")}}, Ticks: 0, Bound: ba},
 		{Name: "cognito/cached-and-uncached", Cognito: true, Prefill: []string{"a"}, Threads: [][]localQ{{q("u1", "a", "b")}, {edit("a"), q("u1", "a", "b")}}, Ticks: 0, Bound: 1},
 	}
 	if c.Thorough() {
